@@ -159,6 +159,7 @@ theorem countsOk_step (s : St) (e : Ev) (h : CountsOk s) : CountsOk (step s e).1
         List.filter_cons, Option.isSome_none]
       exact ⟨by omega, by simpa [failedNodes] using h2⟩
     | print x => exact ⟨h1, h2⟩
+    | veryVerbose x => exact ⟨h1, h2⟩
     | failure f =>
       simp only [Bool.false_eq_true, if_false, onFailure]
       cases hn : s.nodesRev with
